@@ -197,7 +197,7 @@ def expected_results(sg: Graph, dg: Graph, shape, constraint, focus, rows, ref):
 
 
 # ───────────────────────── SPARQL-based constraint components (validators) ─────────────────────────
-COMPONENT_KINDS = ["ask_maxlen", "ask_type", "ask_two", "node_select", "prop_select", "both", "optional_param"]
+COMPONENT_KINDS = ["ask_maxlen", "ask_type", "ask_two", "node_select", "prop_select", "both", "optional_param", "node_select_union", "node_select_union", "node_select_rebind"]
 
 
 def gen_component(rng, g: Graph, k):
@@ -242,6 +242,18 @@ def gen_component(rng, g: Graph, k):
     elif kind == "node_select":
         params.append(param("noPred%d" % k))
         validator(SH.nodeValidator, SH.SPARQLSelectValidator, SH.select, "SELECT $this ?value WHERE { $this $noPred%d ?value }" % k, ["{$this} has {?value} for {$noPred%d}" % k])
+    elif kind == "node_select_union":
+        # several solutions per focus node, only some of which bind ?path: each message is filled from its own solution
+        params.append(param("noPred%d" % k))
+        validator(SH.nodeValidator, SH.SPARQLSelectValidator, SH.select,
+                  "SELECT $this ?value ?path WHERE { { $this ?path ?value . FILTER (?path = $noPred%d) } UNION { $this ex:%s ?value } }" % (k, str(rng.choice(PREDS))[len(str(EX)):]),
+                  ["{$this} has {?value} via {?path}"])
+    elif kind == "node_select_rebind":
+        # SHACL-SPARQL forbids re-binding a pre-bound variable; the component's own parameters are pre-bound in its validators
+        params.append(param("noPred%d" % k))
+        validator(SH.nodeValidator, SH.SPARQLSelectValidator, SH.select,
+                  "SELECT $this ?value WHERE { $this ex:%s ?value . BIND (STR(?value) AS ?noPred%d) }" % (str(rng.choice(PREDS))[len(str(EX)):], k),
+                  ["rebinds {$noPred%d}" % k], asVar="noPred%d" % k)
     elif kind == "prop_select":
         params.append(param("notEqual%d" % k))
         validator(SH.propertyValidator, SH.SPARQLSelectValidator, SH.select,
